@@ -26,6 +26,9 @@ type schedImpl struct {
 	resetFns  []string
 	accesses  int
 	syncFiles int
+	// heapWrites: also instrument writes to fields reached through pointers (off for the scanner
+	// package, whose objects are private to one parse and written once per byte)
+	heapWrites bool
 }
 
 func isSyncType(t types.Type, names ...string) bool {
@@ -42,7 +45,7 @@ func isSyncType(t types.Type, names ...string) bool {
 }
 
 func analyse(p *packages.Package) *schedImpl {
-	s := &schedImpl{guarded: map[*types.Named]string{}, mutable: map[*types.Var]bool{}}
+	s := &schedImpl{guarded: map[*types.Named]string{}, mutable: map[*types.Var]bool{}, heapWrites: p.Name != "scanner"}
 	scope := p.Types.Scope()
 	for _, name := range scope.Names() {
 		obj := scope.Lookup(name)
@@ -166,6 +169,57 @@ type hit struct {
 	key   string
 	expr  string // source of the identity expression
 	write bool
+	touch bool // monitor-only access (no scheduling point): a struct field outside the guarded set
+}
+
+// writtenFields are the struct fields (of any package) that some statement assigns through a
+// pointer; reads of these fields are reported to the race monitor, too.
+var writtenFields = map[*types.Var]bool{}
+
+// collectWrites records the fields this package writes through pointers.
+func (s *schedImpl) collectWrites(p *packages.Package) {
+	for _, f := range p.Syntax {
+		ast.Inspect(f, func(n ast.Node) bool {
+			var targets []ast.Expr
+			switch x := n.(type) {
+			case *ast.AssignStmt:
+				if x.Tok != token.DEFINE {
+					targets = x.Lhs
+				}
+			case *ast.IncDecStmt:
+				targets = []ast.Expr{x.X}
+			}
+			for _, l := range targets {
+				if v := s.heapWriteField(p, l); v != nil {
+					writtenFields[v] = true
+				}
+			}
+			return true
+		})
+	}
+}
+
+// heapWriteField returns the field object written by an assignment target, if it is a field
+// reached through a pointer.
+func (s *schedImpl) heapWriteField(p *packages.Package, e ast.Expr) *types.Var {
+	for {
+		switch x := e.(type) {
+		case *ast.ParenExpr:
+			e = x.X
+			continue
+		case *ast.IndexExpr:
+			e = x.X
+			continue
+		case *ast.SelectorExpr:
+			sel := p.TypesInfo.Selections[x]
+			if sel == nil || sel.Kind() != types.FieldVal || !throughPointer(p, x.X) {
+				return nil
+			}
+			v, _ := sel.Obj().(*types.Var)
+			return v
+		}
+		return nil
+	}
 }
 
 // stmtHits collects the guarded objects / mutable globals a simple statement (or the header of a
@@ -194,6 +248,10 @@ func (s *schedImpl) stmtHits(p *packages.Package, nodes []ast.Node, lhs []ast.Ex
 			h.write = true
 		}
 	}
+	addTouch := func(key, expr string, w bool) {
+		add(key, expr, w)
+		found[key].touch = true
+	}
 	for _, root := range nodes {
 		if root == nil {
 			continue
@@ -212,6 +270,13 @@ func (s *schedImpl) stmtHits(p *packages.Package, nodes []ast.Node, lhs []ast.Ex
 						}
 					}
 					add("obj:"+src, id, lhsRoots[x])
+				} else if s.heapWrites {
+					if sel := p.TypesInfo.Selections[x]; sel != nil && sel.Kind() == types.FieldVal {
+						if v, _ := sel.Obj().(*types.Var); v != nil && writtenFields[v] && pure(x.X) && throughPointer(p, x.X) {
+							src := exprString(p.Fset, x)
+							addTouch("fld:"+src, "vsync.ID(&"+src+")", false)
+						}
+					}
 				}
 			case *ast.Ident:
 				if v, ok := p.TypesInfo.Uses[x].(*types.Var); ok && v.Parent() == scope && s.mutable[v] {
@@ -232,11 +297,86 @@ func (s *schedImpl) stmtHits(p *packages.Package, nodes []ast.Node, lhs []ast.Ex
 			return true
 		})
 	}
+	// writes to a field reached through a pointer, to an element of such a field, or through a
+	// pointer: any of them on an object two threads can reach is a candidate data race, whether or
+	// not the struct carries a mutex (a "read-only" method that caches into its receiver)
+	if s.heapWrites {
+		for _, l := range lhs {
+			if id, src, ok := s.heapWrite(p, l); ok {
+				addTouch("fld:"+src, id, true)
+			}
+		}
+	}
 	var out []hit
 	for _, k := range order {
 		out = append(out, *found[k])
 	}
 	return out
+}
+
+// heapWrite classifies an assignment target; it returns the identity expression of the written
+// location when that location is not a plain local variable.
+func (s *schedImpl) heapWrite(p *packages.Package, e ast.Expr) (id, src string, ok bool) {
+	for {
+		pe, isParen := e.(*ast.ParenExpr)
+		if !isParen {
+			break
+		}
+		e = pe.X
+	}
+	switch x := e.(type) {
+	case *ast.SelectorExpr:
+		if _, guarded := s.guardedSel(p, x); guarded {
+			return "", "", false // already an access of the guarded object
+		}
+		sel := p.TypesInfo.Selections[x]
+		if sel == nil || sel.Kind() != types.FieldVal || !pure(x.X) || !throughPointer(p, x.X) {
+			return "", "", false
+		}
+		src = exprString(p.Fset, x)
+		return "vsync.ID(&" + src + ")", src, true
+	case *ast.IndexExpr:
+		// an element of a slice / map / array held in a field: the field is the location
+		base, isSel := x.X.(*ast.SelectorExpr)
+		if !isSel {
+			return "", "", false
+		}
+		return s.heapWrite(p, base)
+	case *ast.StarExpr:
+		if !pure(x.X) {
+			return "", "", false
+		}
+		src = exprString(p.Fset, x.X)
+		return "vsync.ID(" + src + ")", "*" + src, true
+	}
+	return "", "", false
+}
+
+// throughPointer reports whether evaluating the selector base e dereferences a pointer somewhere
+// (then the selected field lives on the heap or in someone else's frame).
+func throughPointer(p *packages.Package, e ast.Expr) bool {
+	for {
+		if t := p.TypesInfo.TypeOf(e); t != nil {
+			if _, isPtr := t.Underlying().(*types.Pointer); isPtr {
+				return true
+			}
+		}
+		switch x := e.(type) {
+		case *ast.SelectorExpr:
+			if id, ok := x.X.(*ast.Ident); ok {
+				if _, isPkg := p.TypesInfo.Uses[id].(*types.PkgName); isPkg {
+					return false // pkg.Var: a package-level variable, instrumented as such
+				}
+			}
+			e = x.X
+		case *ast.ParenExpr:
+			e = x.X
+		case *ast.StarExpr:
+			return true
+		default:
+			return false
+		}
+	}
 }
 
 func (s *schedImpl) accessStmts(p *packages.Package, hits []hit, pos token.Pos) []ast.Stmt {
@@ -245,6 +385,11 @@ func (s *schedImpl) accessStmts(p *packages.Package, hits []hit, pos token.Pos) 
 	site := fmt.Sprintf("%s:%d", filepath.Base(position.Filename), position.Line)
 	for _, h := range hits {
 		src := fmt.Sprintf("vsync.Access(%s, %v, %q)", h.expr, h.write, site)
+		if h.touch {
+			// the identity is computed under a guard: the hook stands in front of the statement, where
+			// a short-circuit condition has not yet excluded a nil base
+			src = fmt.Sprintf("vsync.TouchF(func() interface{} { return %s }, %v, %q)", strings.TrimSuffix(strings.TrimPrefix(h.expr, "vsync.ID("), ")"), h.write, site)
+		}
 		e, err := parseExpr(src)
 		if err != nil {
 			fail("cannot build access call %s: %v", src, err)
@@ -304,14 +449,29 @@ func (s *schedImpl) instrument(p *packages.Package, f *ast.File) bool {
 				hits = s.stmtHits(p, nodes, nil)
 			case *ast.DeclStmt:
 				hits = s.stmtHits(p, []ast.Node{x.Decl}, nil)
+			// the hooks stand in front of the statement: expressions that may use variables the
+			// statement's own init clause declares (condition, post, tag) are left to the hooks
+			// inside the body when there is an init clause
 			case *ast.IfStmt:
-				hits = s.stmtHits(p, []ast.Node{x.Init, x.Cond}, nil)
+				if x.Init != nil {
+					hits = s.stmtHits(p, []ast.Node{initRHS(x.Init)}, nil)
+				} else {
+					hits = s.stmtHits(p, []ast.Node{x.Cond}, nil)
+				}
 			case *ast.ForStmt:
-				hits = s.stmtHits(p, []ast.Node{x.Init, x.Cond, x.Post}, nil)
+				if x.Init != nil {
+					hits = s.stmtHits(p, []ast.Node{initRHS(x.Init)}, nil)
+				} else {
+					hits = s.stmtHits(p, []ast.Node{x.Cond}, nil)
+				}
 			case *ast.RangeStmt:
 				hits = s.stmtHits(p, []ast.Node{x.X}, nil)
 			case *ast.SwitchStmt:
-				hits = s.stmtHits(p, []ast.Node{x.Init, x.Tag}, nil)
+				if x.Init != nil {
+					hits = s.stmtHits(p, []ast.Node{initRHS(x.Init)}, nil)
+				} else {
+					hits = s.stmtHits(p, []ast.Node{x.Tag}, nil)
+				}
 			case *ast.DeferStmt, *ast.GoStmt:
 				// not instrumented (the deferred unlocks are the mutex's own scheduling points)
 			}
@@ -405,4 +565,15 @@ func (s *schedImpl) summary() interface{} {
 	sort.Strings(m)
 	sort.Strings(s.immutable)
 	return map[string]interface{}{"mutex_bearing_structs": g, "mutable_globals": m, "immutable_globals": strings.Join(s.immutable, " "), "access_calls_inserted": s.accesses, "files_with_sync_rewritten": s.syncFiles, "reset_functions": s.resetFns}
+}
+
+// initRHS returns the right-hand sides of an init clause (what is evaluated in the enclosing scope).
+func initRHS(st ast.Stmt) ast.Node {
+	if a, ok := st.(*ast.AssignStmt); ok {
+		if len(a.Rhs) == 1 {
+			return a.Rhs[0]
+		}
+		return &ast.CompositeLit{Elts: a.Rhs}
+	}
+	return nil
 }
